@@ -61,6 +61,15 @@ def run(tier):
         rec, m = one_run(len(recs), inst, "adsa" if i % 2 else "maxsum", {}, "random", 3, r, with_scenario=True)
         meta[rec["id"]] = m
         recs.append(rec)
+    # the end of an agent's life, where the thread that asked for the shutdown could end up doing the agent's work: paths of
+    # Messaging.tla containing a clean shutdown, with the REAL agent loop stepped along them, then Agent.join() from the caller
+    from .C18 import stepped_shutdown_thread_records
+    srecs, sres = stepped_shutdown_thread_records(120 if quick else 1500, seed() + 21, first_id=len(recs))
+    v.add_tlc(sres, "Messaging.tla transitions (two posters, one destination, shutdown) for the stepped end-of-life runs")
+    for sr in srecs:
+        meta[sr["id"]] = {"algo": "stepped agent loop + join()", "dist": "-", "shape": "-", "path": sr.pop("path")}
+        recs.append(sr)
+    v.cov["stepped_shutdown_runs"] = len(srecs)
     verdicts, jres = judge("Judge_C21", recs, chunk=40, workers=1, xss="1g")
     v.add_tlc(jres, "thread identity of %d callbacks in %d real-thread runs judged (Judge_C21)" % (sum(len(x["events"]) // 2 for x in recs), len(recs)))
     kinds = {}
@@ -91,7 +100,8 @@ def run(tier):
     v.cov["rule"] = ("%d real-thread orchestrated runs (algorithms dpop, dsa, mgm, mgm2, maxsum, adsa; TLC-drawn DCOPs over 8 shapes; oneagent and "
                      "random distributions on 2-3 agents, some runs with a scenario removing an agent; switch interval drawn from {1e-6 .. 5e-3}); every start / on_message / pause of every "
                      "computation added to an agent, every periodic action and every discovery callback registered from a computation callback is "
-                     "recorded with its thread; non-trivial = a DCOP computation handled at least one message" % n)
+                     "recorded with its thread; plus %d runs of one real agent whose loop is stepped along Messaging.tla paths containing a clean shutdown, "
+                     "followed by Agent.join() from the caller; non-trivial = a DCOP computation handled at least one message" % (n, len(srecs)))
     v.cov["trusted_base"] = ["TLC", "vlib/threadrt.py (class-level wrappers around Agent.add_computation / set_periodic_action / _run and Discovery.subscribe_*)"]
     v.assumptions = ["thread schedules are sampled by the operating system (perturbed switch interval), not enumerated"]
     return v.finish()
